@@ -521,10 +521,11 @@ func init() {
 		"strconv.Itoa": func(e *Engine, _ *ssa.Function, a []Value) Value {
 			return strconv.FormatInt(e.concreteInt(a[0], "Itoa"), 10)
 		},
-		"strconv.ParseInt": stubParseInt,
-		"fmt.Sprintf":      func(e *Engine, _ *ssa.Function, a []Value) Value { return e.sprintf(a[0], sliceVals(e, a[1])) },
-		"fmt.Sprint":       func(e *Engine, _ *ssa.Function, a []Value) Value { return e.sprint(sliceVals(e, a[0]), false) },
-		"fmt.Sprintln":     func(e *Engine, _ *ssa.Function, a []Value) Value { return e.sprint(sliceVals(e, a[0]), true) },
+		"strconv.ParseInt":  stubParseInt,
+		"strconv.ParseUint": stubParseUint,
+		"fmt.Sprintf":       func(e *Engine, _ *ssa.Function, a []Value) Value { return e.sprintf(a[0], sliceVals(e, a[1])) },
+		"fmt.Sprint":        func(e *Engine, _ *ssa.Function, a []Value) Value { return e.sprint(sliceVals(e, a[0]), false) },
+		"fmt.Sprintln":      func(e *Engine, _ *ssa.Function, a []Value) Value { return e.sprint(sliceVals(e, a[0]), true) },
 		"fmt.Errorf": func(e *Engine, _ *ssa.Function, a []Value) Value {
 			args := sliceVals(e, a[1])
 			n := &Native{Kind: "error", Msg: e.sprintf(strings.ReplaceAll(a[0].(string), "%w", "%v"), args)}
@@ -1022,6 +1023,34 @@ func stubParseInt(e *Engine, _ *ssa.Function, a []Value) Value {
 	over := st.Lt(st.BV(uint64(maxV), 64), acc, false)
 	if e.decideV(over, "range") {
 		return Tuple{maxV, &Iface{T: errType, V: &Native{Kind: "error", Msg: "strconv.ParseInt: value out of range"}}}
+	}
+	return Tuple{acc, (*Iface)(nil)}
+}
+
+// stubParseUint models strconv.ParseUint like stubParseInt (unsigned clamp).
+func stubParseUint(e *Engine, fn *ssa.Function, a []Value) Value {
+	base := e.concreteInt(a[1], "ParseUint base")
+	bitSize := e.concreteInt(a[2], "ParseUint bitSize")
+	if s, ok := a[0].(string); ok {
+		v, err := strconv.ParseUint(s, int(base), int(bitSize))
+		if err != nil {
+			return Tuple{int64(v), &Iface{T: errType, V: &Native{Kind: "error", Msg: err.Error()}}}
+		}
+		return Tuple{int64(v), (*Iface)(nil)}
+	}
+	// reuse the digit accumulation of ParseInt with a 63-bit ceiling, then clamp unsigned
+	r := stubParseInt(e, fn, []Value{a[0], a[1], int64(64)}).(Tuple)
+	if r[1].(*Iface) != nil {
+		return r
+	}
+	if bitSize == 0 || bitSize >= 64 {
+		return r
+	}
+	maxV := int64(1)<<uint(bitSize) - 1
+	st := e.st
+	acc := e.intTerm(r[0], 64)
+	if e.decideV(st.Lt(st.BV(uint64(maxV), 64), acc, false), "urange") {
+		return Tuple{maxV, &Iface{T: errType, V: &Native{Kind: "error", Msg: "strconv.ParseUint: value out of range"}}}
 	}
 	return Tuple{acc, (*Iface)(nil)}
 }
